@@ -46,6 +46,27 @@ pub fn generate(g: &mut Gen, thorough: bool) {
             }
         }
     }
+    // the dm / dms operators through a context: every angle of [-720, 720] degrees is encoded and
+    // decoded as it is (no wrapping into a "usual" range), model against implementation and round trip
+    {
+        let mut rows: Vec<[f64; 4]> = vec![];
+        for lon in [-719.75, -540.5, -360.0, -185.5, -180.0, -179.999, -0.51, 0.0, 0.51, 179.5, 180.0, 180.25, 185.5, 270.0, 359.999, 360.0, 540.25, 719.5] {
+            for lat in [-89.75, -0.25, 0.0, 12.5, 90.0] {
+                rows.push([(lon as f64).to_radians(), (lat as f64).to_radians(), 10.0, 2000.0]);
+            }
+        }
+        for _ in 0..(if thorough { 2000 } else { 100 }) {
+            rows.push([g.rng.uniform(-720.0, 720.0).to_radians(), g.rng.uniform(-90.0, 90.0).to_radians(), 0.0, 0.0]);
+        }
+        for chunk in rows.chunks(30) {
+            let data = crate::wire::data_of(chunk);
+            for op in ["dm", "dms"] {
+                g.push(super::op_line("default", &[], &[], op, "apply", "I", &data), &format!("op-{op}-inv"), true);
+                g.push(super::op_line("default", &[], &[], &format!("{op} inv | {op}"), "apply", "F", &data), &format!("op-{op}-roundtrip"), true);
+                g.push(format!("S_C19O\t{op}\t{data}"), "oracle-iso6709-operators", true);
+            }
+        }
+    }
     // containers: every kind x every f64 class
     let specials = [0.0, -0.0, 1.5, -2.25, f64::NAN, f64::INFINITY, -f64::INFINITY, 1e-310, 1e300, 16777217.0];
     for a in specials {
